@@ -174,15 +174,28 @@ def _api_frame(inp):
     return df
 
 
-def _close(a, b, tol=1e-9):
+def _numkind(v):
+    import numpy as np
+    if isinstance(v, (bool, np.bool_)):
+        return "b"
+    if isinstance(v, (int, np.integer)):
+        return "i"
+    if isinstance(v, (float, np.floating)):
+        return "f"
+    return type(v).__name__
+
+
+def _close(a, b, tol=1e-9, dtypes=True):
     import numpy as np
     import pandas as pd
     if isinstance(b, pd.DataFrame):
-        pd.testing.assert_frame_equal(a, b, check_exact=False, rtol=tol, atol=1e-12, check_dtype=False)
+        pd.testing.assert_frame_equal(a, b, check_exact=False, rtol=tol, atol=1e-12, check_dtype=dtypes)
     elif isinstance(b, pd.Series):
-        pd.testing.assert_series_equal(a, b, check_exact=False, rtol=tol, atol=1e-12, check_dtype=False)
+        pd.testing.assert_series_equal(a, b, check_exact=False, rtol=tol, atol=1e-12, check_dtype=dtypes)
     else:
         fa, fb = a, b
+        if dtypes:
+            assert _numkind(fa) == _numkind(fb), ("scalar kind differs", type(fa).__name__, type(fb).__name__)
         if isinstance(fb, (float, np.floating)) and math.isnan(fb):
             assert isinstance(fa, (float, np.floating)) and math.isnan(fa), (fa, fb)
         elif isinstance(fb, (int, float, np.integer, np.floating, bool, np.bool_)):
@@ -273,13 +286,23 @@ def case_api(ctx, inp):
             got, exp = got.loc[keep], exp.loc[keep]
         if k in ("nlargest", "nsmallest") and not isinstance(exp, pd.Series):
             pass
-        _close(got, exp)
+        _close(got, exp, dtypes=False)
     except AssertionError as e:
         sig = None
         empty = any(n == 0 for n in inp["lens"]) and len(inp["lens"]) > 1
         if k in ("max", "min") and not p.get("skipna", True) and empty and p.get("axis", 0) == 0:
             sig = FINDING_MINMAX
         ctx.fail(f"{k}({p}, split_every={inp['se']}) differs from pandas", sig=sig, observed=str(e)[:300])
+        return
+    # values agree; now the dtypes / scalar kinds (statement: "computed scalars/series vs pandas")
+    try:
+        _close(got, exp, dtypes=True)
+    except AssertionError as e:
+        empty = any(n == 0 for n in inp["lens"]) and len(inp["lens"]) > 1
+        sig = None
+        if k in ("max", "min") and empty and p.get("axis", 0) == 0:
+            sig = "api:int-minmax:empty-partition:float64"
+        ctx.fail(f"{k}({p}, split_every={inp['se']}): values equal pandas but dtypes differ", sig=sig, observed=str(e)[:300])
         return
     ctx.branch("api-" + k)
     if any(n == 0 for n in inp["lens"]):
